@@ -19,6 +19,7 @@ func init() {
 	zzsv.Register("ZZ_C04_Runs", ZZ_C04_Runs)
 	zzsv.Register("ZZ_C04_RunsAfterFailure", ZZ_C04_RunsAfterFailure)
 	zzsv.Register("ZZ_C04_MapShapes", ZZ_C04_MapShapes)
+	zzsv.Register("ZZ_C04_Embedded", ZZ_C04_Embedded)
 }
 
 type zzRecA struct {
@@ -518,5 +519,76 @@ func ZZ_C04_MapShapes(sv *zzsv.T) {
 	default:
 		sv.Assert("C04.shapes.first", zzSame(sv, out1, zInt(a1)))
 		sv.Assert("C04.shapes.second", zzSame(sv, out2, zInt(0-a2)))
+	}
+}
+
+type ZzAudit struct {
+	Name string
+	By   int64
+}
+
+type zzEmbedAfter struct {
+	Name  string
+	Count int64
+	ZzAudit
+}
+
+type zzEmbedBefore struct {
+	ZzAudit
+	Name  string
+	Count int64
+}
+
+type zzEmbedPtr struct {
+	Name string
+	*ZzAudit
+	Count int64
+}
+
+// ZZ_C04_Embedded: a struct that embeds another struct whose field names
+// collide with its own: the script sees the host object's own field
+// (`obj.Name`), in whatever order the fields are declared and whether the
+// embedded struct is a value or a pointer; reading the embedded struct or its
+// other fields never crashes and never disturbs the outer fields.
+func ZZ_C04_Embedded(sv *zzsv.T) {
+	outer := zzASCII(sv, "outer", 1)
+	inner := zzASCII(sv, "inner", 1)
+	cnt := sv.Int64("Count")
+	by := sv.Int64("By")
+	var obj interface{}
+	switch sv.Choice("shape", 4) {
+	case 0:
+		obj = zzEmbedAfter{Name: outer, Count: cnt, ZzAudit: ZzAudit{Name: inner, By: by}}
+	case 1:
+		obj = &zzEmbedBefore{ZzAudit: ZzAudit{Name: inner, By: by}, Name: outer, Count: cnt}
+	case 2:
+		obj = zzEmbedPtr{Name: outer, ZzAudit: &ZzAudit{Name: inner, By: by}, Count: cnt}
+	default:
+		obj = &zzEmbedPtr{Name: outer, Count: cnt}
+	}
+	scripts := []string{"return Name;", "x = By; return Name;", "x = ZzAudit; return Count;", "x = By; y = ZzAudit; return Name + Name;", "return Count;"}
+	k := sv.Choice("script", len(scripts))
+	e := New(scripts[k])
+	sv.Note("script", e.Script)
+	sv.Assume(e.Prepare() == nil)
+	var out object.Object
+	var err error
+	ok := zzNoPanic(func() { out, err = e.Execute(obj) })
+	sv.Assert("C04.embedded.nopanic", ok)
+	if !ok {
+		return
+	}
+	zzDescribe(sv, "result", out, err)
+	sv.Assert("C04.embedded.noerror", err == nil)
+	if err != nil {
+		return
+	}
+	switch k {
+	case 0, 1:
+		sv.Assert("C04.embedded.own_field", zzSame(sv, out, zStr(outer)))
+	case 3:
+		sv.Assert("C04.embedded.own_field", zzSame(sv, out, zStr(outer+outer)))
+	default:
+		sv.Assert("C04.embedded.own_field", zzSame(sv, out, zInt(cnt)))
 	}
 }
